@@ -15,26 +15,33 @@ HexVal(c) == IF IsDigit(c) THEN c - 48 ELSE IF c >= 97 /\ c <= 102 THEN c - 87 E
 SimpleEsc(c) == CASE c = 110 -> 10 [] c = 116 -> 9 [] c = 114 -> 13 [] c = BACKSLASH -> BACKSLASH [] c = QUOTE -> QUOTE
                   [] c = 97 -> 7 [] c = 98 -> 8 [] c = 102 -> 12 [] c = 118 -> 11 [] OTHER -> -1
 
-\* scan the inside of the literal (without the surrounding quotes)
-RECURSIVE UnqBody(_, _)
-UnqBody(in, acc) ==
-  IF in = E THEN Okv(acc)
-  ELSE LET c == in[1] IN
-    IF c = QUOTE \/ c = NL THEN Rej                          \* bare quote inside, or newline
-    ELSE IF c # BACKSLASH THEN UnqBody(Tail(in), Append(acc, Sanitize(c)))
-    ELSE IF Len(in) < 2 THEN Rej
-    ELSE LET e == in[2] IN
-      IF SimpleEsc(e) >= 0 THEN UnqBody(Drop(in, 2), Append(acc, SimpleEsc(e)))
-      ELSE IF e = 120 THEN                                    \* \xHH
-        IF Len(in) < 4 \/ HexVal(in[3]) > 15 \/ HexVal(in[4]) > 15 THEN Rej
-        ELSE IF HexVal(in[3]) >= 8 THEN Unspec
-        ELSE UnqBody(Drop(in, 4), Append(acc, HexVal(in[3]) * 16 + HexVal(in[4])))
-      ELSE IF e = 117 THEN                                    \* \uHHHH
-        IF Len(in) < 6 \/ \E k \in 3..6 : HexVal(in[k]) > 15 THEN Rej
-        ELSE LET v == ((HexVal(in[3]) * 16 + HexVal(in[4])) * 16 + HexVal(in[5])) * 16 + HexVal(in[6]) IN
-             IF v >= 55296 /\ v <= 57343 THEN Rej ELSE UnqBody(Drop(in, 6), Append(acc, v))
-      ELSE IF e = 85 \/ (e >= 48 /\ e <= 55) THEN Unspec      \* \U........ and octal
-      ELSE Rej                                                \* includes \' which is illegal inside "..."
+\* scan the inside of the literal (without the surrounding quotes): a character automaton, folded over the text
+\* (a recursive scan overflows the stack on the multi-kilobyte values of the INI checks)
+UnqStart == [mode |-> "plain", out |-> E, res |-> "", need |-> 0, got |-> 0, acc |-> 0, kind |-> ""]
+UnqStep(a, c) ==
+  IF a.res # "" THEN a
+  ELSE IF a.mode = "plain" THEN
+       IF c = QUOTE \/ c = NL THEN [a EXCEPT !.res = "rej"]                     \* bare quote inside, or newline
+       ELSE IF c = BACKSLASH THEN [a EXCEPT !.mode = "esc"]
+       ELSE [a EXCEPT !.out = Append(@, Sanitize(c))]
+  ELSE IF a.mode = "esc" THEN
+       IF SimpleEsc(c) >= 0 THEN [a EXCEPT !.out = Append(@, SimpleEsc(c)), !.mode = "plain"]
+       ELSE IF c = 120 THEN [a EXCEPT !.mode = "hex", !.need = 2, !.got = 0, !.acc = 0, !.kind = "x"]         \* \xHH
+       ELSE IF c = 117 THEN [a EXCEPT !.mode = "hex", !.need = 4, !.got = 0, !.acc = 0, !.kind = "u"]         \* \uHHHH
+       ELSE IF c = 85 \/ (c >= 48 /\ c <= 55) THEN [a EXCEPT !.res = "unspec"]                               \* \U........ and octal
+       ELSE [a EXCEPT !.res = "rej"]                                                                       \* includes \' which is illegal inside "..."
+  ELSE \* hex digits of \x or \u
+       IF HexVal(c) > 15 THEN [a EXCEPT !.res = "rej"]
+       ELSE LET v == a.acc * 16 + HexVal(c) IN
+            IF a.got + 1 < a.need THEN [a EXCEPT !.acc = v, !.got = @ + 1]
+            ELSE IF a.kind = "x" THEN (IF v >= 128 THEN [a EXCEPT !.res = "unspec"] ELSE [a EXCEPT !.out = Append(@, v), !.mode = "plain"])
+            ELSE IF v >= 55296 /\ v <= 57343 THEN [a EXCEPT !.res = "rej"]
+            ELSE [a EXCEPT !.out = Append(@, v), !.mode = "plain"]
+UnqBody(in, ignored) ==
+  LET r == FoldLeft(UnqStep, UnqStart, in) IN
+  IF r.res = "unspec" THEN Unspec
+  ELSE IF r.res = "rej" \/ r.mode # "plain" THEN Rej               \* an escape cut short by the end of the literal
+  ELSE Okv(r.out)
 
 \* strconv.Unquote on a text that starts with a double quote
 Unquote(t) ==
